@@ -3,6 +3,7 @@ import ast
 import z3
 
 from .values import *      # noqa
+from . import values as VAL
 from .symex import (Ctx, Frame, Infeasible, PathEnd, Unsupported, AnchorLost, PyRaise,
                     ReturnSig, BreakSig, ContinueSig)
 
@@ -187,8 +188,22 @@ class Interp:
                 conj.append(self.eq(s.ety.wrap(s.t[i]), x))
             return z3.And(*conj)
         if isinstance(a, VMap) and isinstance(b, VMap):
+            if a.t is None or b.t is None:
+                if a.t is None and b.t is None:
+                    return z3.BoolVal(True)
+                x = a if a.t is not None else b
+                return z3.Not(self.lib.map_nonempty(self, x))
             if a.t.sort() == b.t.sort():
                 return a.t == b.t
+            # lift the typed side into the universal value sort (exact: injective re-tagging)
+            if isinstance(a.vty, type(Any)):
+                cb = VAL.coerce_map(b, a.kty, a.vty)
+                if cb is not None:
+                    return a.t == cb
+            if isinstance(b.vty, type(Any)):
+                ca = VAL.coerce_map(a, b.kty, b.vty)
+                if ca is not None:
+                    return ca == b.t
             raise Unsupported('== of dicts with different sorts')
         if isinstance(a, VSet) and isinstance(b, VSet):
             return a.t == b.t
